@@ -19,6 +19,7 @@ import (
 	"regexp"
 	"runtime/metrics"
 	"sort"
+	"sync/atomic"
 	"strings"
 	"time"
 
@@ -479,7 +480,9 @@ func c18run(args []string) error {
 		// structural mutations on the TLV nodes that TLC extracted
 		for _, nd := range nodes[it.Name] {
 			lo := nd.LenOff - 1
-			variants := [][]byte{{0}, {0x80}, {0x84, 0xff, 0xff, 0xff, 0xff}}
+			variants := [][]byte{{0}, {0x80}, {0x84, 0xff, 0xff, 0xff, 0xff}, {0x81, 0}, {0x82, 0, 0}, {0x84, 0x7f, 0xff, 0xff, 0xff}, {0x84, 0x80, 0, 0, 0},
+				{0x85, 1, 0, 0, 0, 0}, {0x88, 0x7f, 0xff, 0xff, 0xff, 0xff, 0xff, 0xff, 0xff}, {0x88, 0xff, 0xff, 0xff, 0xff, 0xff, 0xff, 0xff, 0xff},
+				{0x88, 0x80, 0, 0, 0, 0, 0, 0, 0}, {0x88, 0, 0, 0, 0, 0, 0, 0, 1}, {0x89, 1, 0, 0, 0, 0, 0, 0, 0, 0}, {0xff}}
 			if nd.Len > 0 {
 				variants = append(variants, derLen(nd.Len-1))
 			}
@@ -499,6 +502,42 @@ func c18run(args []string) error {
 				m[nd.Tag-1] = t
 				st.run(it, fmt.Sprintf("tag at %d := %02x", nd.Tag-1, t), m, inExempt(it, nd.Tag-1, nd.Tag+3))
 				perFamily["tag"]++
+			}
+		}
+		// well-formed structural changes: the content of one node is replaced and every enclosing length re-encoded,
+		// so the decoder's own field handling (not the ASN.1 layer) sees values of unexpected size
+		nds := nodes[it.Name]
+		for ni, nd := range nds {
+			if nd.Len < 0 {
+				continue
+			}
+			cs := nd.LenOff - 1 + nd.LenSz
+			content := orig[cs : cs+nd.Len]
+			var repl [][]byte
+			repl = append(repl, nil)
+			if !nd.Cons {
+				for _, k := range []int{1, 2, 8, 33, 34, 66, 300} {
+					repl = append(repl, append(bytes.Repeat([]byte{0x7f}, k), content...)) // grown in front
+					repl = append(repl, bytes.Repeat([]byte{0xff}, k))
+					repl = append(repl, bytes.Repeat([]byte{0x00}, k))
+				}
+				if nd.Len > 1 {
+					repl = append(repl, content[:1], content[1:], content[:nd.Len-1])
+				}
+			} else {
+				repl = append(repl, append(append([]byte(nil), content...), content...)) // children twice
+				// first child only / without first child
+				if first := childEnd(nds, ni, cs); first > 0 {
+					repl = append(repl, orig[cs:first], orig[first:cs+nd.Len])
+				}
+			}
+			for _, r := range repl {
+				m := rebuild(orig, nds, ni, r)
+				if m == nil {
+					continue
+				}
+				st.run(it, fmt.Sprintf("content of TLV at %d (%d bytes) := %d bytes, lengths re-encoded", nd.Tag-1, nd.Len, len(r)), m, inExempt(it, nd.Tag-1, cs+nd.Len))
+				perFamily["resize"]++
 			}
 		}
 		if it.ASN1 {
@@ -604,3 +643,157 @@ func allocBytes() uint64 {
 }
 
 var digitsRe = regexp.MustCompile(`-?[0-9]+`)
+
+// end offset (0-based, exclusive) of the first child of constructed node ni, or 0
+func childEnd(nds []tlvNode, ni int, cs int) int {
+	if ni+1 < len(nds) && nds[ni+1].Tag-1 == cs && nds[ni+1].Len >= 0 {
+		c := nds[ni+1]
+		return c.LenOff - 1 + c.LenSz + c.Len
+	}
+	return 0
+}
+
+// replace the content of node ni by r and re-encode the length of ni and of every enclosing node (DER lengths)
+func rebuild(orig []byte, nds []tlvNode, ni int, r []byte) []byte {
+	nd := nds[ni]
+	cs := nd.LenOff - 1 + nd.LenSz
+	cur := append(append(append([]byte(nil), orig[nd.Tag-1:nd.LenOff-1]...), derLen(len(r))...), r...)
+	lo, hi := nd.Tag-1, cs+nd.Len // the byte range of orig that cur replaces
+	for a := ni - 1; a >= 0; a-- {
+		an := nds[a]
+		if an.Len < 0 {
+			return nil // indefinite ancestors are left alone
+		}
+		acs := an.LenOff - 1 + an.LenSz
+		if !(acs <= lo && hi <= acs+an.Len) {
+			continue // not an ancestor
+		}
+		content := append(append(append([]byte(nil), orig[acs:lo]...), cur...), orig[hi:acs+an.Len]...)
+		cur = append(append(append([]byte(nil), orig[an.Tag-1:an.LenOff-1]...), derLen(len(content))...), content...)
+		lo, hi = an.Tag-1, acs+an.Len
+	}
+	return append(append(append([]byte(nil), orig[:lo]...), cur...), orig[hi:]...)
+}
+
+// c18-frames <templates.ndjson> <strings.ndjson> <out.json>: every TLC-enumerated short string inside every frame of HSFrame.tla
+func c18frames(args []string) error {
+	type tmpl struct {
+		Kind   string `json:"kind"`
+		N      int    `json:"n"`
+		Prefix []int  `json:"prefix"`
+	}
+	var tmpls []tmpl
+	tf, err := os.Open(args[0])
+	if err != nil {
+		return err
+	}
+	sc := bufio.NewScanner(tf)
+	sc.Buffer(make([]byte, 1<<20), 1<<27)
+	for sc.Scan() {
+		var t tmpl
+		if err := json.Unmarshal(sc.Bytes(), &t); err != nil {
+			return err
+		}
+		tmpls = append(tmpls, t)
+	}
+	tf.Close()
+	byLen := map[int][][]byte{}
+	sf, err := os.Open(args[1])
+	if err != nil {
+		return err
+	}
+	sc = bufio.NewScanner(sf)
+	sc.Buffer(make([]byte, 1<<20), 1<<27)
+	for sc.Scan() {
+		var s []int
+		if err := json.Unmarshal(sc.Bytes(), &s); err != nil {
+			return err
+		}
+		byLen[len(s)] = append(byLen[len(s)], toBytes(s))
+	}
+	sf.Close()
+	decs := decodersFor("hsmsg")
+	var names []string
+	for n := range decs {
+		names = append(names, n)
+	}
+	sort.Strings(names)
+	type failT struct {
+		Kind, Decoder, What, Detail, Input string
+	}
+	var fails []failT
+	seen := map[string]bool{}
+	var progress int64
+	var msgs, calls int
+	for _, t := range tmpls {
+		prefix := toBytes(t.Prefix)
+		inputs := byLen[t.N]
+		msgs += len(inputs)
+		for _, dn := range names {
+			fn := decs[dn]
+			start := 0
+			for start < len(inputs) {
+				// a worker runs the rest of the batch; the main goroutine watches its progress
+				done := make(chan struct{})
+				var panicAt int64 = -1
+				var panicMsg string
+				atomic.StoreInt64(&progress, int64(start))
+				go func(from int) {
+					defer close(done)
+					for i := from; i < len(inputs); i++ {
+						atomic.StoreInt64(&progress, int64(i))
+						m := append(append([]byte(nil), prefix...), inputs[i]...)
+						if p := recoverStr(func() { fn(m) }); p != "" {
+							panicAt, panicMsg = int64(i), p
+							return
+						}
+					}
+					atomic.StoreInt64(&progress, int64(len(inputs)))
+				}(start)
+				last, lastT := int64(-1), time.Now()
+				hang := false
+			wait:
+				for {
+					select {
+					case <-done:
+						break wait
+					case <-time.After(200 * time.Millisecond):
+						p := atomic.LoadInt64(&progress)
+						if p != last {
+							last, lastT = p, time.Now()
+						} else if time.Since(lastT) > 3*time.Second {
+							hang = true
+							break wait
+						}
+					}
+				}
+				at := int(atomic.LoadInt64(&progress))
+				if hang || panicAt >= 0 {
+					if panicAt >= 0 {
+						at = int(panicAt)
+					}
+					f := failT{Kind: t.Kind, Decoder: dn, What: "panic", Detail: panicMsg}
+					if hang {
+						f.What, f.Detail = "hang", "no result within 3 s"
+					}
+					key := f.Kind + "|" + f.Decoder + "|" + f.What + "|" + digitsRe.ReplaceAllString(strings.SplitN(f.Detail, "\n", 2)[0], "N")
+					if !seen[key] {
+						seen[key] = true
+						f.Input = hex.EncodeToString(append(append([]byte(nil), prefix...), inputs[at]...))
+						fails = append(fails, f)
+					}
+					calls += at + 1 - start
+					start = at + 1 // (a hung worker is abandoned)
+					continue
+				}
+				calls += len(inputs) - start
+				start = len(inputs)
+			}
+		}
+	}
+	out := map[string]interface{}{"templates": len(tmpls), "messages": msgs, "calls": calls, "fails": fails}
+	b, _ := json.Marshal(out)
+	return os.WriteFile(args[2], b, 0644)
+}
+
+func init() { cmds["c18-frames"] = c18frames }
